@@ -206,6 +206,38 @@ theorem records_atomic_index_any_schedule (cfg : Cfg) (hfix : cfg.tailSplit = fa
   rw [global_stream_is_runStream indexOps cfg names a0 evs k script hk]
   exact records_atomic_partial_index cfg hfix (names k.1) (names 0) (strmNo k) (!k.2) hm1 hm2 ha0 script hdom
 
+/-- C06 IN THE PROPERTY'S OWN TERMS, TOP LEVEL: a run of pdsh on the target list `targets` with
+    options -N / -K as given (`labels`, `optK`), the domain flag computed as dsh() does, index-level
+    relay (the model run against the real cbuf.c), ANY interleaving `evs` of the events of all
+    streams of all targets.  Then the global sequence of stdio calls is a shuffle of the per-stream
+    sequences, and for every stream of target #i that carried a stream in the domain, its calls
+    are whole records `label: line` in order, tail last -- with `label` = the property's label of
+    `targets[i]` (own name; shortened at the first dot only if it does not start with a digit, no
+    -K, and the targets do not span domains).  (`rs`, `re`: the two C08 switches, irrelevant here.) -/
+theorem records_own_label_any_schedule (labels optK rs re : Bool) (targets : List Bytes)
+    (hn : ∀ t ∈ targets, NameOk t) {sizeMeta : Nat} (hm1 : 1 ≤ sizeMeta) (hm2 : sizeMeta ≤ 800)
+    {a0 : Cbuf.Cbuf} (ha0 : mkIndexBuf sizeMeta = some a0) (evs : List (Key × LEv)) :
+    LogOk (evs.foldl (gstep indexOps ⟨labels, keepDomain optK targets, false, rs, re⟩
+      (fun i => targets.getD i [])) (ginit a0)) ∧
+    ∀ (k : Key) (script : List Bytes), k.1 < targets.length →
+      (evs.filter (fun e => e.1 = k)).map (·.2) = script.map LEv.feed ++ [LEv.finish] →
+      Spec.Dom05 (markerOf (!k.2)) script.flatten = true →
+      Spec.c06Ok (Spec.recPrefix labels optK targets (targets.getD k.1 [])) script.flatten
+        ((logOf (evs.foldl (gstep indexOps ⟨labels, keepDomain optK targets, false, rs, re⟩
+          (fun i => targets.getD i [])) (ginit a0)) k).map Em.bytes) = true := by
+  obtain ⟨h1, h2⟩ := records_atomic_index_any_schedule ⟨labels, keepDomain optK targets, false, rs, re⟩ rfl
+    (fun i => targets.getD i []) hm1 hm2 ha0 evs
+  refine ⟨h1, ?_⟩
+  intro k script hk hfeed hdom
+  have hmem : targets.getD k.1 [] ∈ targets := by
+    have hg : targets.getD k.1 [] = targets[k.1] := by simp [List.getD, hk]
+    rw [hg]
+    exact List.getElem_mem hk
+  have h := h2 k script hfeed hdom
+  simp only [pfx] at h
+  rw [label_correct labels optK targets _ (hn _ hmem) (fun t ht => (hn t ht).1)] at h
+  exact h
+
 /-! ### non-vacuity -/
 
 /-- label examples: same domain -> stripped; different domains -> kept; digit-first -> kept -/
